@@ -63,6 +63,14 @@ def class_state_stores(allow: Dict[str, str]) -> List[dict]:
                 return ast.unparse(e) if isinstance(r, ClassInfo) else ""
             return ""
 
+        # statements nested in a branch / loop / handler: a class-level store there happens only sometimes, so an earlier
+        # value survives -- reported under its own obligation name
+        conditional = set()
+        for outer in ast.walk(fi.node):
+            if isinstance(outer, (ast.If, ast.For, ast.While, ast.Try)) and outer is not fi.node:
+                for inner in ast.walk(outer):
+                    if inner is not outer:
+                        conditional.add(id(inner))
         for n in ast.walk(fi.node):
             tgts = []
             if isinstance(n, ast.Assign):
@@ -85,19 +93,21 @@ def class_state_stores(allow: Dict[str, str]) -> List[dict]:
                         elif isinstance(b, ast.Attribute) and is_class_expr(b.value):
                             site = f"{is_class_expr(b.value)}.{b.attr}[...]"
                     if site:
-                        out.append((fi, sub.lineno, site))
+                        out.append((fi, sub.lineno, site, id(n) in conditional))
             if isinstance(n, ast.Call) and isinstance(n.func, ast.Attribute) and n.func.attr in MUTATORS:
                 b = n.func.value
                 if isinstance(b, ast.Name) and b.id in mutable_globals and b.id not in local_names:
-                    out.append((fi, n.lineno, f"{b.id}.{n.func.attr}()"))
+                    out.append((fi, n.lineno, f"{b.id}.{n.func.attr}()", False))
                 elif isinstance(b, ast.Attribute) and is_class_expr(b.value):
-                    out.append((fi, n.lineno, f"{is_class_expr(b.value)}.{b.attr}.{n.func.attr}()"))
+                    out.append((fi, n.lineno, f"{is_class_expr(b.value)}.{b.attr}.{n.func.attr}()", False))
     obs = []
-    for fi, line, site in sorted(set(out), key=lambda x: (x[0].key, x[1], x[2])):
+    for fi, line, site, cond in sorted(set(out), key=lambda x: (x[0].key, x[1], x[2])):
         key = f"{fi.qualname}:{site}"
         reason = allow.get(key)
-        obs.append(_ob("classstate", f"class_state@{fi.qualname}:L{line}:{site}", line, "discharged" if reason else "failed",
-                       reason or f"{fi.key} line {line} writes process-wide state `{site}`: instances / episodes are no longer isolated",
+        kind = "class_state.conditional" if cond else "class_state"
+        obs.append(_ob("classstate", f"{kind}@{fi.qualname}:{site}", line, "discharged" if reason else "failed",
+                       reason or f"{fi.key} line {line} writes process-wide state `{site}`" + (" only under a condition (an earlier value survives otherwise)" if cond else "")
+                       + ": instances / episodes are no longer isolated",
                        f"no store to class attributes, module globals or module-level mutable objects ({site})"))
     if not obs:
         obs.append(_ob("classstate", "class_state@none", 0, "discharged", "", "no function under src/primaite writes class-level or module-level state"))
